@@ -63,7 +63,7 @@ def cases(tier, seed):
                              "header": f("header", 10) == 0, **({"max_merge": rng.choice([2, 3, 4])} if many else {}),
                              "labels": ["default", "offset", "perm"][f("labels", 3)], "pos_dtype": ["int64", "int32"][f("posdt", 2)],
                              "names": ["usual", "unsorted"][f("names", 2)], "chrom_cat": ["no", "no", "lexical"][f("chromcat", 3)],
-                             "chrom_ids": ["names", "names", "integer"][f("chromids", 3)]}
+                             "chrom_ids": ["names", "names", "integer"][f("chromids", 3)], "prior_sibling": f("sibling", 3) == 1}
     # single records on every interesting position (both anchors), every option: the boundary cases of the property
     for table in tables[:6] if tier == "quick" else tables:
         nch = 1 + max(t[0] for t in table)
@@ -103,7 +103,8 @@ def cases(tier, seed):
         if one_based:
             recs = [[r[0], r[1] + 1, r[2], r[3] + 1, r[4]] for r in recs]
         yield "ig.bg2", {"table": table, "recs": recs, "one_based": one_based, "tril": tril, "valued": True,
-                         "via": via, "chunk": rng.choice([1, 2, 3, 4, 1000]), "mergebuf": rng.choice([0, 0, 1, 2])}
+                         "via": via, "chunk": rng.choice([1, 2, 3, 4, 1000]), "mergebuf": rng.choice([0, 0, 1, 2]),
+                         "prior_sibling": f("sibling", 3) == 1}
     for h in range(200 if tier == "quick" else 3000):
         f = gen.feat(3, h)
         table = tables[f("table", len(tables))]
@@ -125,7 +126,8 @@ def cases(tier, seed):
         if one_based:
             px = [[p[0] + 1, p[1] + 1, p[2]] for p in px]
         case = {"table": table, "px": px, "one_based": one_based, "tril": tril,
-                "via": via, "chunk": rng.choice([1, 2, 3, 4, 6, 1000]), "mergebuf": rng.choice([0, 0, 1, 2, 3])}
+                "via": via, "chunk": rng.choice([1, 2, 3, 4, 6, 1000]), "mergebuf": rng.choice([0, 0, 1, 2, 3]),
+                "prior_sibling": f("sibling", 3) == 1}
         if via == "load" and tril == "drop" and not bad:
             # a file listing both triangles in no particular order, read in chunks of several records, merged in several epochs
             pos = [(i, j) for i in range(n) for j in range(n)]
